@@ -95,6 +95,13 @@ func NewHooks() *HookState {
 	return h
 }
 
+// Events returns a copy of the event log.
+func (h *HookState) Events() []Event {
+	h.mu.Lock()
+	defer h.mu.Unlock()
+	return append([]Event(nil), h.Log...)
+}
+
 // Install makes h the process-wide hook handler.
 func (h *HookState) Install() {
 	globalMu.Lock()
